@@ -566,14 +566,15 @@ T(t_modpow_opt)(T(ctx) *c, int which)
 	n3 = (long long)c->n * (long long)c->n * (long long)c->n;
 	if (2100 * n3 <= 8 * g_budget) {
 		/* every size from below the minimum to beyond the largest window */
-		for (s = min_doc >= 2 ? min_doc - 2 : 0; s <= top + 1; s ++) {
+		/* (the as_i31 wrapper only halves twlen: every third size is enough) */
+		for (s = min_doc >= 2 ? min_doc - 2 : 0; s <= top + 1; s += (which == 2 ? 3 : 1)) {
 			size_t tw = s * mul + (mul == 2 ? vf_below(&R, 2) : 0);
 			T(modpow_opt_one)(c, which, tw, 1 + vf_below(&R, 3), 3 + (int)vf_below(&R, 4),
 				(int)vf_below(&R, NCLS), min_doc * mul, min_impl * mul, WCLASS(s));
 		}
 		vf_stat("modpow_opt_all_sizes_moduli", 1);
 	} else {
-		long long allowance = 12 * g_budget, cost;
+		long long allowance = 10 * g_budget, cost;
 		int start;
 		cand[ncand ++] = min_doc - 1;
 		cand[ncand ++] = min_doc;
@@ -587,7 +588,7 @@ T(t_modpow_opt)(T(ctx) *c, int which)
 			size_t tw = sz * mul + (mul == 2 ? vf_below(&R, 2) : 0);
 			size_t elen = (i == 0) ? eb : 1 + vf_below(&R, (uint32_t)eb);
 			cost = (long long)(12 * elen + 32) * (long long)(c->n * c->n);
-			if (i >= 3 && allowance < cost) break;
+			if (i >= 3 && (allowance < cost || which == 2)) break;
 			allowance -= cost;
 			T(modpow_opt_one)(c, which, tw, elen, (i + (int)c->k) % NECLS,
 				(i * 5 + (int)c->k) % NCLS, min_doc * mul, min_impl * mul, WCLASS(sz));
